@@ -347,8 +347,13 @@ func runC19(c *core.Ctx) {
 				dF = "the comparator does not call the descriptor comparison with (item1, item2, descriptors, 0)"
 				return
 			}
-			argsOK := call.Call.Args[0] == ssa.Value(cl.Params[np-2]) && call.Call.Args[1] == ssa.Value(cl.Params[np-1]) && core.IsIntConst(call.Call.Args[3], 0)
-			descrOK := core.Unwrap(core.Resolve(sbdFV.Outer(call.Call.Args[2]))) == ssa.Value(sbd.Params[0])
+			q1, q2, ql, qi, okQ := c19roles(cmpFn)
+			if !okQ {
+				dF = "the descriptor comparison does not take (item1, item2, descriptors, index)"
+				return
+			}
+			argsOK := call.Call.Args[q1] == ssa.Value(cl.Params[np-2]) && call.Call.Args[q2] == ssa.Value(cl.Params[np-1]) && core.IsIntConst(call.Call.Args[qi], 0)
+			descrOK := core.Unwrap(core.Resolve(sbdFV.Outer(call.Call.Args[ql]))) == ssa.Value(sbd.Params[0])
 			switch {
 			case !argsOK:
 				dF = "the comparator does not compare (item1, item2) starting at descriptor 0"
@@ -492,8 +497,12 @@ func c19descriptor(p *core.Prog, f *ssa.Function, sign int64) (bool, string) {
 		if !ok || len(call.Call.Args) != 1 {
 			return -1
 		}
-		for k := 0; k < 2; k++ {
-			if call.Call.Args[0] == ssa.Value(f.Params[k]) {
+		r1, r2, _, _, okR := c19roles(f)
+		if !okR {
+			return -1
+		}
+		for k, pos := range []int{r1, r2} {
+			if call.Call.Args[0] == ssa.Value(f.Params[pos]) {
 				return k
 			}
 		}
@@ -577,9 +586,13 @@ func c19recursion(p *core.Prog, f *ssa.Function) (bool, string) {
 	if rec == nil {
 		return c19iteration(p, f)
 	}
-	// args: same items, same descriptors, index+1
-	step, ok := rec.Call.Args[3].(*ssa.BinOp)
-	if !(rec.Call.Args[0] == ssa.Value(f.Params[0]) && rec.Call.Args[1] == ssa.Value(f.Params[1]) && rec.Call.Args[2] == ssa.Value(f.Params[2]) && ok && step.Op == token.ADD && step.X == ssa.Value(f.Params[3]) && core.IsIntConst(step.Y, 1)) {
+	// args: same items, same descriptors, index+1 (whatever the order of the parameters)
+	r1, r2, rl, ri, okRoles := c19roles(f)
+	if !okRoles || len(rec.Call.Args) != len(f.Params) {
+		return false, "the recursive step is not (item1, item2, descriptors, index+1)"
+	}
+	step, ok := rec.Call.Args[ri].(*ssa.BinOp)
+	if !(rec.Call.Args[r1] == ssa.Value(f.Params[r1]) && rec.Call.Args[r2] == ssa.Value(f.Params[r2]) && rec.Call.Args[rl] == ssa.Value(f.Params[rl]) && ok && step.Op == token.ADD && step.X == ssa.Value(f.Params[ri]) && core.IsIntConst(step.Y, 1)) {
 		return false, "the recursive step is not (item1, item2, descriptors, index+1)"
 	}
 	tie, hasNext := false, false
@@ -587,27 +600,8 @@ func c19recursion(p *core.Prog, f *ssa.Function) (bool, string) {
 		if m, ok := core.AsCmp(cnd); ok && m.Op == token.EQL && core.IsIntConst(m.Y, 0) {
 			tie = true
 		}
-		n := core.Normalize(cnd)
-		if call, ok := n.V.(*ssa.Call); ok && n.True {
-			// a helper that returns (index+1) < len(descriptors) of its own parameters, called with (descriptors, index)
-			if g := core.Callee(&call.Call); g != nil && len(call.Call.Args) == 2 && call.Call.Args[0] == ssa.Value(f.Params[2]) && call.Call.Args[1] == ssa.Value(f.Params[3]) {
-				core.Instrs(g, func(ins ssa.Instruction) {
-					if r, isR := ins.(*ssa.Return); isR {
-						if c19isHasNext(core.RetVals(r)[0], g.Params[0], g.Params[1]) {
-							hasNext = true
-						}
-					}
-				})
-			}
-		}
-		if n.True && c19isHasNext(n.V, f.Params[2], f.Params[3]) {
+		if c19hasNextFact(cnd, f.Params[rl], f.Params[ri]) {
 			hasNext = true
-		}
-		// written negated: !(index+1 >= len) etc. is normalised by AsCmp
-		if m, ok := core.AsCmp(cnd); ok {
-			if m.Op == token.LSS && c19idxPlus1(m.X, f.Params[3]) && c19lenOf(m.Y, f.Params[2]) || m.Op == token.GTR && c19idxPlus1(m.Y, f.Params[3]) && c19lenOf(m.X, f.Params[2]) {
-				hasNext = true
-			}
 		}
 	}
 	if !tie || !hasNext {
@@ -723,4 +717,87 @@ func c19iteration(p *core.Prog, f *ssa.Function) (bool, string) {
 		return false, fmt.Sprintf("the next descriptor is consulted without result == 0 (tie=%v) && hasNext (%v)", tie, hasNext)
 	}
 	return true, "loop form: index advanced by one exactly on result == 0 && hasNext; every other exit returns this descriptor's verdict"
+}
+
+
+// c19roles: the positions of (item1, item2, descriptors, index) among the parameters of the descriptor comparator - the
+// two parameters of the element type in order, the slice of descriptors, the int.
+func c19roles(f *ssa.Function) (i1, i2, list, idx int, ok bool) {
+	i1, i2, list, idx = -1, -1, -1, -1
+	for i, prm := range f.Params {
+		switch t := prm.Type().Underlying().(type) {
+		case *types.Slice:
+			if list < 0 {
+				list = i
+			}
+			continue
+		case *types.Basic:
+			if t.Kind() == types.Int && idx < 0 {
+				idx = i
+				continue
+			}
+		}
+		if i1 < 0 {
+			i1 = i
+		} else if i2 < 0 {
+			i2 = i
+		}
+	}
+	return i1, i2, list, idx, i1 >= 0 && i2 >= 0 && list >= 0 && idx >= 0
+}
+
+// c19hasNextFact: the decided condition says "there is a descriptor after index" - (index+1) < len(list) spelled directly,
+// or a helper that returns (a+1) < b / (a+1) < len(b) of its own parameters, called with index and the list (or its length).
+func c19hasNextFact(cnd core.Cond, list *ssa.Parameter, idx ssa.Value) bool {
+	n := core.Normalize(cnd)
+	if n.True && c19isHasNext(n.V, list, idx) {
+		return true
+	}
+	if m, ok := core.AsCmp(cnd); ok {
+		if m.Op == token.LSS && c19idxPlus1(m.X, idx) && c19lenOf(m.Y, list) || m.Op == token.GTR && c19idxPlus1(m.Y, idx) && c19lenOf(m.X, list) {
+			return true
+		}
+	}
+	call, ok := n.V.(*ssa.Call)
+	if !ok || !n.True {
+		return false
+	}
+	g := core.Callee(&call.Call)
+	if g == nil || len(g.Blocks) == 0 {
+		return false
+	}
+	found := false
+	core.Instrs(g, func(ins ssa.Instruction) {
+		r, isR := ins.(*ssa.Return)
+		if !isR || len(r.Results) != 1 {
+			return
+		}
+		b, isB := core.Resolve(core.RetVals(r)[0]).(*ssa.BinOp)
+		if !isB {
+			return
+		}
+		plus, bound := b.X, b.Y
+		if b.Op == token.GTR {
+			plus, bound = b.Y, b.X
+		} else if b.Op != token.LSS {
+			return
+		}
+		for i, pa := range g.Params {
+			if !c19idxPlus1(plus, pa) || i >= len(call.Call.Args) || core.Resolve(call.Call.Args[i]) != idx {
+				continue
+			}
+			for j, pb := range g.Params {
+				if j >= len(call.Call.Args) {
+					continue
+				}
+				if c19lenOf(bound, pb) && core.Resolve(call.Call.Args[j]) == ssa.Value(list) {
+					found = true
+				}
+				if core.Resolve(bound) == ssa.Value(pb) && c19lenOf(call.Call.Args[j], list) {
+					found = true
+				}
+			}
+		}
+	})
+	return found
 }
